@@ -3,6 +3,8 @@
 // Scenario grammar: checks/C15.py.  One observation item per allocation / check / reset.
 #include <new>
 #include <deque>
+#include <csetjmp>
+#include <csignal>
 #include "CppUTest/TestHarness.h"
 #include "CppUTest/TestHarness_c.h"
 #include "CppUTest/TestMemoryAllocator.h"
@@ -14,6 +16,20 @@ using namespace hl;
 #undef new
 
 static FailableMemoryAllocator* fa;
+
+// A request that dies with SIGSEGV (e.g. a wrapper copying into the NULL it got) is observed as item 3 instead of
+// killing the harness: the scenario stays replayable and a systematic crash does not exhaust the runner's restarts.
+static sigjmp_buf crashJmp;
+static volatile sig_atomic_t inRequest = 0;
+static void onSegv(int sig)
+{
+    if (inRequest) { inRequest = 0; siglongjmp(crashJmp, 1); }
+    signal(sig, SIG_DFL); raise(sig);
+}
+static void restoreAllocators()
+{
+    setCurrentMallocAllocatorToDefault(); setCurrentNewAllocatorToDefault(); setCurrentNewArrayAllocatorToDefault();
+}
 static void checkBody() { fa->checkAllFailedAllocsWereDone(); }
 
 static std::string checkItem()
@@ -45,7 +61,9 @@ static std::string checkItem()
 // one allocation request of the given family at file:line; 0 = block, 1 = NULL, 2 = bad_alloc
 static int request(int fam, const char* file, size_t line)
 {
-    int res = 0;
+    volatile int res = 0;
+    if (sigsetjmp(crashJmp, 1)) { restoreAllocators(); return 3; }
+    inRequest = 1;
     switch (fam) {
     case 0: { char* p = fa->alloc_memory(8, file, line); if (p) fa->free_memory(p, 8, file, line); else res = 1; break; }
     case 1: case 2: case 3: case 4: {
@@ -78,6 +96,7 @@ static int request(int fam, const char* file, size_t line)
         setCurrentNewArrayAllocatorToDefault();
         break; }
     }
+    inRequest = 0;
     return res;
 }
 
@@ -120,8 +139,12 @@ static void countScenario(Toks& t, Out& o)
         }
         else if (k == ":m") {
             int fam = t.n();
+            any = true;
+            if (sigsetjmp(crashJmp, 1)) { o << std::string("3"); continue; }
+            inRequest = 1;
             void* p = fam == 0 ? cpputest_malloc(8) : fam == 1 ? cpputest_calloc(2, 4) : fam == 2 ? (void*) cpputest_strdup("hello") : (void*) cpputest_strndup("hello", 3);
-            o << std::string(p ? "0" : "1"); any = true;
+            inRequest = 0;
+            o << std::string(p ? "0" : "1");
             if (p && getCurrentMallocAllocator() != NullUnknownAllocator::defaultAllocator()) cpputest_free(p);
         }
         else { fprintf(stderr, "bad cop %s\n", k.c_str()); exit(3); }
@@ -134,6 +157,7 @@ static void countScenario(Toks& t, Out& o)
 int main()
 {
     setvbuf(stdout, NULL, _IONBF, 0);
+    signal(SIGSEGV, onSegv);
     Toks t; Out o;
     while (readline(t)) {
         std::string kind = t.next();
